@@ -37,6 +37,7 @@ P = {
     "C03.e": "NUMBER/BASETYPE inherits lists in metamodel.py equal the ordered choices in lang.py",
     "C03.f": "abstract-rule result selection: the first referenced rule whose kind is not 'match' (guard evaluated over the three kinds)",
     "C03.g": "the fixpoint's change flag is sticky within a pass (only set to True) and reset once at the top of each pass",
+    "C03.i": "(shared with C25.f) classes an alias/abstract rule is inherited by come from the referenced rule objects",
     "C03.h": "cycle guards are keyed by identity and a visited hit skips the element instead of ending the search",
   },
   declined="that the fixpoint computes the documented kinds for every reference graph; which alternative matched at run time",
@@ -167,6 +168,7 @@ P = {
 "C16": dict(
   decided={
     "C16.a": "every load obtains its parser by cloning the blueprint; clone() re-initialises every mutable container __init__ creates (writer/reader table agreement, copy.copy is shallow)",
+    "C16.d": "no mutable default argument is stored or mutated anywhere in the package (process-wide shared state)",
     "C16.c": "a value stored in a process-wide (module- or class-level) cache is keyed by everything it was computed from (per-(cache,input) exceptions with a reason)",
     "C16.b": "models under construction are recognised by the existence of the marker (its value starts as None), so a failed import evicts the half-built importer",
   },
@@ -257,6 +259,9 @@ P = {
     "C25.b": "import once; namespace registered before the imported file is loaded (cycle cut)",
     "C25.c": "imported namespaces are appended in import order",
     "C25.d": "class fqn includes the namespace except for the base namespace",
+    "C25.e": "a relative import is resolved against the package of the importing grammar (expression evaluated on sample namespaces)",
+    "C25.f": "inheriting classes are taken from the referenced rule objects, never looked up by name in the current namespace",
+    "C25.g": "the list of imported namespaces is append-only",
   },
   declined="resolution results over arbitrary import graphs",
   technique="statement-order / dominance checks + decision table"),
@@ -276,6 +281,7 @@ P = {
     "C27.a": "every public load entry checks the parameters before any model is loaded",
     "C27.b": "every call of a loading API forwards model_params derived from the importing model / the caller's parameter",
     "C27.c": "_tx_model_params is set before the user callback and for every model",
+    "C27.d": "no mutable default argument is stored into object state (parameter definitions are per metamodel)",
   },
   declined="'exposes exactly the given parameters' for all closures",
   technique="CFG must-pass-through + argument-forwarding lint over all loader call sites"),
@@ -283,6 +289,8 @@ P = {
   decided={
     "C28.a": "at every pos_to_linecol site the parser and the offset belong to the same model (ownership pairing); provider call sites hand over the owner of the reference",
     "C28.b": "each raise site passes line, col and filename of the owner",
+    "C28.c": "the location fields of one raise are assigned in the same loop iteration",
+    "C28.d": "the resolver fills a provider error's location only where it has none",
     "C08.c": "(shared with C08) every list reference carries the position of its own element, so its error is located at that element",
     "C06.c": "(shared with C06) the parsed text is the caller's text", "C06.d": "(shared with C06) position arithmetic is Arpeggio's",
   },
